@@ -239,48 +239,102 @@ def key_columns(ctx, gm: GroupModel, rule: str) -> None:
                 okd = d in (col, ("attr", col, "_underlying"))
             if not okd:
                 problems.append(f"key column is `{gm.sh(data, 60)}`, expected the key column unchanged (list(col))")
-        # the stored name, 'key' only for an UNNAMED column: evaluated for the three kinds of stored name (None, '', a word)
-        N = ("attr", col, "_name")
-        got = {case: _name_value(o.name_base, N, case) for case in (None, "", "w")}
-        if o.uniq is None or got[None] != "key" or got["w"] != "w" or got[""] not in ("", "key"):
-            problems.append(f"key column is named `{gm.sh(o.name, 60)}`, expected uniquify(<stored name>, or 'key' for an unnamed column)")
-        elif got[""] == "key":
-            problems.append(f"key column is named `{gm.sh(o.name_base, 60)}`: a column whose stored name is '' comes out renamed to 'key' "
-                            f"(a falsy test where `is None` is meant)")
-        # a key keeps its OWN stored name: the first key of each stored name keeps it as it is, and the names of all keys are in the
-        # uniquifier's set before the first synthetic name ('key' for an unnamed key, a numbered repeat) is chosen - made unique left
-        # to right, an unnamed key placed before a key named 'key' takes that name and the real column comes back as 'key2'
+        # the name of a key column, evaluated by cases of its stored name N (None, '', a word) and of whether a key of that name came
+        # before: an unnamed key is uniquify('key'); the FIRST key of a stored name keeps it as it is ('' is a name like any other); a
+        # repeated name is uniquify(N); and the names of all keys are in the uniquifier's set before the first synthetic name is chosen
+        # (made unique left to right, an unnamed key placed before a key named 'key' takes that name and the real column is renamed)
         from ..symx import flatten_conds as _fc
-        keep_ok = False
-        if o.name_keep is not None:
-            cnd, kept = o.name_keep
-            flip = {"Is": "IsNot", "IsNot": "Is", "In": "NotIn", "NotIn": "In", "Eq": "NotEq", "NotEq": "Eq"}
-            conj = [c if pol else (("cmp", flip[c[1]]) + tuple(c[2:]) if c[0] == "cmp" and c[1] in flip else ("un", "Not", c))
-                    for c, pol in _fc(((cnd, True),))]
-            not_none = any(c == ("cmp", "IsNot", N, NONE) for c in conj)
-            seen_sets = [c[3] for c in conj if c[0] == "cmp" and c[1] == "NotIn" and c[2] == N and c[3][0] == "obj"
-                         and it.objs[c[3][1]].kind == "set" and not it.objs[c[3][1]].init and o.loop not in it.objs[c[3][1]].loops]
+        N = ("attr", col, "_name")
+        is_u = lambda t: t[0] == "call" and t[1][0] == "lam" and len(t[2]) == 1 and not t[3] and it.atomic_closure(it.closures[t[1][1]])
+        seen_sets = set()
+
+        def kcond(c, nval, repeated):
+            if c[0] == "cmp" and c[1] in ("Is", "IsNot") and c[2] == N and c[3] == NONE:
+                return (nval is None) == (c[1] == "Is")
+            if c[0] == "cmp" and c[1] in ("In", "NotIn") and c[2] == N and c[3][0] == "obj" and it.objs[c[3][1]].kind == "set":
+                seen_sets.add(c[3])
+                return repeated == (c[1] == "In")
+            if c == N:
+                return bool(nval)                          # (a truth test of the name: '' counts as unnamed - judged by the cases)
+            if c[0] == "un" and c[1] == "Not":
+                r = kcond(c[2], nval, repeated)
+                return None if r is None else not r
+            if c[0] == "bool":
+                rs = []
+                for x in c[2]:
+                    r = kcond(x, nval, repeated)
+                    rs.append(r)
+                    if (c[1] == "and" and r is False) or (c[1] == "or" and r is True):
+                        break
+                if c[1] == "and":
+                    return False if False in rs else (None if None in rs else True)
+                return True if True in rs else (None if None in rs else False)
+            return None
+
+        def kname(t, nval, repeated):
+            if t == N:
+                return ("N", nval)
+            if t[0] == "const":
+                return ("C", t[2])
+            if t[0] == "ifexp":
+                r = kcond(t[1], nval, repeated)
+                return None if r is None else kname(t[2] if r else t[3], nval, repeated)
+            if t[0] == "bool" and t[1] == "or" and len(t[2]) == 2:      # N or 'key'
+                a_ = kname(t[2][0], nval, repeated)
+                if a_ is None:
+                    return None
+                return a_ if a_[1] else kname(t[2][1], nval, repeated)
+            if is_u(t):
+                inner = kname(t[2][0], nval, repeated)
+                return None if inner is None else ("U", inner)
+            return None
+        want = {(None, False): ("U", ("C", "key")), (None, True): ("U", ("C", "key")),
+                ("w", False): ("N", "w"), ("", False): ("N", ""), ("w", True): ("U", ("N", "w")), ("", True): ("U", ("N", ""))}
+        got = {k_: kname(o.name, k_[0], k_[1]) if o.name is not None else None for k_ in want}
+        bad = [k_ for k_ in want if got[k_] != want[k_]]
+        if bad:
+            k_ = bad[0]
+            if got[("", False)] in (("U", ("C", "key")),) or got[("", True)] == ("U", ("C", "key")):
+                problems.append(f"key column is named `{gm.sh(o.name_base, 60)}`: a column whose stored name is '' comes out renamed to 'key' "
+                                f"(a falsy test where `is None` is meant)")
+            elif got[("w", False)] == ("U", ("N", "w")):
+                problems.append("key names are made unique left to right instead of the keys' own stored names being taken first (the first key "
+                                "of a stored name does not keep it as it is): an unnamed key placed before a key named 'key' takes that name and "
+                                "the real column comes back as 'key2'")
+            else:
+                problems.append(f"key column is named `{gm.sh(o.name, 60)}`: for a stored name {k_[0]!r}"
+                                f"{' that an earlier key already has' if k_[1] else ''} it evaluates to {got[k_]!r}, expected "
+                                f"{'uniquify(' + repr('key') + ')' if k_[0] is None else ('uniquify(<the name>)' if k_[1] else 'the stored name as it is')}")
+        else:
+            # the first occurrence is recorded, and all key names are reserved before the key loop
             recorded = any(e.kind == "call" and e.term[1][0] == "attr" and e.term[1][2] == "add" and e.term[1][1] in seen_sets
-                           and e.term[2] == (N,) and o.loop in e.loops and any(c == (cnd, True) or c[0] == cnd for c in e.conds)
-                           for e in it.events)
-            keep_ok = kept == N and not_none and bool(seen_sets) and recorded and len(conj) == 2
-        reserved = False
-        for e in it.events:
-            if e.kind == "call" and e.term[1][0] == "attr" and e.term[1][2] == "update" and e.term[1][1][0] == "obj" and e.seq < o.ev.seq \
-                    and o.loop not in e.loops and len(e.term[2]) == 1 and e.term[2][0][0] == "obj":
-                els = [x for x in it.events if x.kind == "elem" and x.term == e.term[2][0]]
-                if len(els) == 1 and els[0].loops and OVER is not None:
-                    lp2 = it.loops[els[0].loops[-1]]
-                    src2 = lp2.domain if (lp2.domain is not None and lp2.domain[0] != "tuple") else lp2.iter
-                    n2 = ("attr", ("elem", lp2.iter, lp2.id), "_name")
-                    filt = [c for c, pol in _fc(els[0].conds[len(lp2.conds):])]
-                    if src2 == OVER and els[0].value == n2 and all(c in (("cmp", "IsNot", n2, NONE), ("cmp", "Is", n2, NONE)) for c in filt):
-                        reserved = True
-        if not (keep_ok and reserved):
-            problems.append("key names are made unique left to right instead of the keys' own stored names being taken first ("
-                            + ("the first key of a stored name does not keep it as it is" if not keep_ok else
-                               "the stored names of all keys are not put into the uniquifier's set before the key loop")
-                            + "): an unnamed key placed before a key named 'key' takes that name and the real column comes back as 'key2'")
+                           and e.term[2] == (N,) and o.loop in e.loops for e in it.events)
+            fresh_seen = all(not it.objs[s_[1]].init and o.loop not in it.objs[s_[1]].loops for s_ in seen_sets)
+            if not (seen_sets and recorded and fresh_seen):
+                problems.append("the first key of a stored name is not recorded (a set of the names kept so far, empty before the key loop): a "
+                                "repeated key name would be kept twice")
+            reserved = False
+            for e in it.events:
+                if e.kind != "call" or e.term[1][0] != "attr" or e.term[1][1][0] != "obj" or e.seq >= o.ev.seq or o.loop in e.loops:
+                    continue
+                if e.term[1][2] == "update" and len(e.term[2]) == 1 and e.term[2][0][0] == "obj":
+                    els = [x for x in it.events if x.kind == "elem" and x.term == e.term[2][0]]
+                    if len(els) != 1 or not els[0].loops:
+                        continue
+                    lp2, val2, extra2 = it.loops[els[0].loops[-1]], els[0].value, els[0].conds
+                elif e.term[1][2] == "add" and len(e.term[2]) == 1 and e.loops:
+                    lp2, val2, extra2 = it.loops[e.loops[-1]], e.term[2][0], e.conds
+                else:
+                    continue
+                src2 = lp2.domain if (lp2.domain is not None and lp2.domain[0] != "tuple") else lp2.iter
+                n2 = ("attr", ("elem", lp2.iter, lp2.id), "_name")
+                filt = [c for c, pol in _fc(extra2[len(lp2.conds):])]
+                if OVER is not None and src2 == OVER and val2 == n2 and all(c in (("cmp", "IsNot", n2, NONE), ("cmp", "Is", n2, NONE)) for c in filt):
+                    reserved = True
+            if not reserved:
+                problems.append("key names are made unique left to right instead of the keys' own stored names being taken first (the stored "
+                                "names of all keys are not put into the uniquifier's set before the key loop): an unnamed key placed before a "
+                                "key named 'key' takes that name and the real column comes back as 'key2'")
         if gm.which != "aggregate" and getattr(ctx, "prop", "") == "C13":
             from ..symx import kw as _kw
             dt = _kw(o.ev.term, "dtype") if o.ev.term[0] == "call" else None
@@ -383,10 +437,12 @@ def naming_kernel(ctx, agg: GroupModel, win: GroupModel, rule: str) -> None:
             us[gm.which] = c
     if "aggregate" in us and "window" in us:
         ua, uw = us["aggregate"], us["window"]
-        ca, cw = _canon(ua.node.body), _canon(uw.node.body)
         fw = uw.finfo or win.f
-        ctx.ob(rule, fw, "uniquify-siblings", ca == cw, "window.uniquify is alpha-equal to aggregate.uniquify", uw.node,
-               message=f"window's uniquify differs from aggregate's:\n--- aggregate\n{ca}\n--- window\n{cw}")
+        fa_u = uniquify_facts(ua.finfo)[1] if ua.finfo is not None else None
+        fw_u = uniquify_facts(uw.finfo)[1] if uw.finfo is not None else None
+        ctx.ob(rule, fw, "uniquify-siblings", fa_u is not None and fa_u == fw_u,
+               f"window.uniquify numbers repeated names like aggregate.uniquify (first suffix, step) = {fa_u}", uw.node,
+               message=f"window's uniquify numbers repeated names differently from aggregate's: (first suffix, step) {fw_u} vs {fa_u}")
     for gm in (agg, win):
         c = us.get(gm.which)
         if c is None:
@@ -407,33 +463,96 @@ def naming_kernel(ctx, agg: GroupModel, win: GroupModel, rule: str) -> None:
 
 
 def uniquify_problems(u) -> List[str]:
+    return uniquify_facts(u)[0]
+
+
+def uniquify_facts(u):
+    """(problems, facts) of a uniquifier `u(name)`: every returned name is not in the used-set when it is returned (it is `name` under
+    `name not in used`, or the candidate a `while <candidate> in used` loop stopped at), is recorded with used.add(..) right before
+    the return, and candidates are f'{name}{k}' for k = START, START + STEP, ...  Accepted in both usual shapes: early return for a
+    free name + probing loop, or one loop over `candidate` that starts as the name itself."""
     name = u.params[0]
-    probs = []
+    probs: List[str] = []
     body = [s for s in u.body if not (isinstance(s, ast.Expr) and isinstance(s.value, ast.Constant))]
-    first = body[0] if body else None
-    used = None
-    if isinstance(first, ast.If) and isinstance(first.test, ast.Compare) and isinstance(first.test.ops[0], ast.NotIn) \
-            and short(first.test.left) == name:
-        used = short(first.test.comparators[0])
-        txt = [short(s) for s in first.body]
-        if txt != [f"{used}.add({name})", f"return {name}"]:
-            probs.append(f"a free name is handled by {txt}, expected to be recorded and returned")
-    else:
-        probs.append("does not start with `if name not in used:`")
-        return probs
-    loops = [s for s in body if isinstance(s, ast.While)]
-    if len(loops) != 1 or not (isinstance(loops[0].test, ast.Compare) and isinstance(loops[0].test.ops[0], ast.In)
-                               and short(loops[0].test.comparators[0]) == used):
-        probs.append("taken names are not probed in a loop `while <candidate> in used`")
-    else:
-        cand = short(loops[0].test.left)
-        rets = [s for s in body if isinstance(s, ast.Return)]
-        d = {s.targets[0].id: s.value for s in body if isinstance(s, ast.Assign) and isinstance(s.targets[0], ast.Name)}
-        if not rets or short(d.get(short(rets[-1].value), rets[-1].value)) != cand:
-            probs.append(f"the returned name is not the probed candidate `{cand}`")
-        adds = [short(s) for s in body if isinstance(s, ast.Expr)]
-        if not any(a.startswith(f"{used}.add(") for a in adds):
-            probs.append("the generated name is not recorded as used")
-    return probs
+    tests = [n for n in ast.walk(u.node) if isinstance(n, ast.Compare) and len(n.ops) == 1 and isinstance(n.ops[0], (ast.In, ast.NotIn))]
+    useds = {short(t.comparators[0]) for t in tests}
+    if len(useds) != 1:
+        return ([f"membership is tested against {sorted(useds)}: expected one set of used names"], None)
+    used = useds.pop()
+
+    def block_of(node, stmts):
+        """(block, index) of the statement list that directly contains node"""
+        for k, st in enumerate(stmts):
+            if st is node:
+                return stmts, k
+            for fld in ("body", "orelse"):
+                sub = getattr(st, fld, None)
+                if isinstance(sub, list):
+                    r = block_of(node, sub)
+                    if r is not None:
+                        return r
+        return None
+    rets = [n for n in ast.walk(u.node) if isinstance(n, ast.Return)]
+    whiles = [n for n in ast.walk(u.node) if isinstance(n, ast.While)]
+    if not rets:
+        return (["returns nothing"], None)
+    assigns = {}
+    for n in ast.walk(u.node):
+        if isinstance(n, ast.Assign) and len(n.targets) == 1 and isinstance(n.targets[0], ast.Name):
+            assigns.setdefault(n.targets[0].id, []).append(n.value)
+    cand_fmt = None
+    for r in rets:
+        rv = short(r.value) if r.value is not None else "None"
+        blk = block_of(r, body)
+        if blk is None:
+            probs.append("a return was not located")
+            continue
+        stmts, k = blk
+        prev = stmts[k - 1] if k > 0 else None
+        if not (isinstance(prev, ast.Expr) and short(prev.value) == f"{used}.add({rv})"):
+            probs.append(f"`return {rv}` is not preceded by `{used}.add({rv})`: the returned name is not recorded as used")
+        # why is rv free?  (i) inside `if rv not in used:`  (ii) a preceding `while X in used` loop in the same block, X being rv or what
+        # rv was assigned from after the loop
+        free = False
+        for t in tests:
+            if isinstance(t.ops[0], ast.NotIn) and short(t.left) == rv:
+                holder = [n for n in ast.walk(u.node) if isinstance(n, ast.If) and n.test is t]
+                if holder and any(r is x for x in ast.walk(ast.Module(body=holder[0].body, type_ignores=[]))):
+                    free = True
+        for w in whiles:
+            if w in stmts[:k] and isinstance(w.test, ast.Compare) and isinstance(w.test.ops[0], ast.In):
+                x = short(w.test.left)
+                after = [st for st in stmts[stmts.index(w) + 1:k] if isinstance(st, ast.Assign) and short(st.targets[0]) == rv]
+                if x == rv and not after:
+                    free = True
+                elif after and short(after[-1].value) == x:
+                    free = True
+        if not free:
+            probs.append(f"`return {rv}`: nothing establishes that `{rv}` is not in `{used}` (neither `if {rv} not in {used}` nor the exit of "
+                         f"`while {rv} in {used}`)")
+    # the candidates: f'{name}{k}'
+    fstrs = [n for n in ast.walk(u.node) if isinstance(n, ast.JoinedStr)]
+    shapes = set()
+    counter = None
+    for fs in fstrs:
+        parts = [v for v in fs.values]
+        if len(parts) == 2 and all(isinstance(v, ast.FormattedValue) for v in parts) and short(parts[0].value) == name \
+                and isinstance(parts[1].value, ast.Name):
+            shapes.add("name+counter")
+            counter = parts[1].value.id
+        else:
+            shapes.add(short(fs))
+    start = step = None
+    if counter is not None:
+        inits = [v for v in assigns.get(counter, []) if isinstance(v, ast.Constant) and isinstance(v.value, int)]
+        start = inits[0].value if len(inits) == 1 else None
+        incs = [n for n in ast.walk(u.node) if isinstance(n, ast.AugAssign) and isinstance(n.target, ast.Name) and n.target.id == counter
+                and isinstance(n.op, ast.Add) and isinstance(n.value, ast.Constant)]
+        step = incs[0].value.value if len(incs) == 1 and any(incs[0] in list(ast.walk(w)) for w in whiles) else None
+    if shapes != {"name+counter"} or start is None or step is None:
+        probs.append(f"candidates are {sorted(shapes)} (counter from {start} by {step}): expected f'{{name}}{{k}}' for k counting up inside the loop")
+    if len(whiles) != 1:
+        probs.append(f"{len(whiles)} probing loops")
+    return (probs, (start, step))
 
 
